@@ -9255,8 +9255,8 @@ class SVG(Group):
                             if s.height == 0 or s.width == 0:
                                 raise ZeroDivisionError
                             viewport_transform = s.viewbox_transform
-                        except ZeroDivisionError:
-                            # The width or height was zero.
+                        except (ZeroDivisionError, ValueError):
+                            # The width or height was zero (or could not be resolved, e.g. "1em").
                             # https://www.w3.org/TR/SVG11/struct.html#SVGElementWidthAttribute
                             # "A value of zero disables rendering of the element."
                             if context is None:
